@@ -473,3 +473,34 @@ func replayLive(c *engine.Ctx, kind, keyPrefix string, cs liveCase, query func(t
 		c.Violate(fmt.Sprintf("%s/%s/%s/after-%s", keyPrefix, cs.G.Kind, cs.G.Layout, cs.Steps[len(cs.Steps)-1].Op), desc, kind, cs)
 	}
 }
+
+// pushPartN pushes a part with n coordinates onto a multi-part geometry and its model (for a
+// MultiPolygon: a polygon with rings of n and n+1 coordinates; for a MultiPoint: one point).
+func pushPartN(t geom.T, m *ref.G, n int, salt float64) bool {
+	f := ref.CounterFrom(900 + salt)
+	var err error
+	switch g := t.(type) {
+	case *geom.MultiPoint:
+		p := ref.NewPoint(m.Layout, true, f)
+		err = g.Push(p.MustBuild().(*geom.Point))
+		m.C1 = append(m.C1, p.C0)
+	case *geom.Polygon:
+		r := ref.NewLine(ref.LinearRing, m.Layout, n, f)
+		err = g.Push(r.MustBuild().(*geom.LinearRing))
+		m.C2 = append(m.C2, r.C1)
+	case *geom.MultiLineString:
+		l := ref.NewLine(ref.LineString, m.Layout, n, f)
+		err = g.Push(l.MustBuild().(*geom.LineString))
+		m.C2 = append(m.C2, l.C1)
+	case *geom.MultiPolygon:
+		pg := ref.NewParts(ref.Polygon, m.Layout, []int{n, n + 1}, f)
+		err = g.Push(pg.MustBuild().(*geom.Polygon))
+		m.C3 = append(m.C3, pg.C2)
+	default:
+		return false
+	}
+	if err != nil {
+		panic("pushPartN: " + err.Error())
+	}
+	return true
+}
